@@ -132,6 +132,7 @@ class EngineE:
         elif op == "from_aggregator":
             shape = self._shape(g, smax=3)
             huge = g.random() < 0.2
+            narrow = False
             if huge:
                 # sparse tensors of huge declared shape with a handful of entries are ordinary use
                 shape = g.choice([[2048, 2048, 2048], [70000, 70000], [2**21, 2**21, 2**21], [3, 2**40], [1290, 1290, 1291]])
@@ -139,10 +140,23 @@ class EngineE:
                 k = g.randint(2, 4)
                 chosen = [tuple(c) for c in g.sample(corner, k)]
                 step["subs_dtype"] = g.choice(["int32", "int64"]) if max(shape) < 2**31 else "int64"
+            elif g.random() < 0.06:
+                # subscripts in a narrow integer type that reach the largest value of that type
+                tname = g.choice(["uint8", "int8", "uint16", "int16"])
+                top = int(np.iinfo(tname).max)
+                shape = [g.randint(1, 3) for _ in range(g.randint(1, 3))]
+                j = g.randrange(len(shape))
+                shape[j] = top + 1
+                chosen = list({tuple((top - g.choice([0, 0, 1])) if d == j else g.randrange(shape[d]) for d in range(len(shape))) for _ in range(g.randint(1, 3))})
+                chosen.sort()
+                step["subs_dtype"] = tname
+                narrow = True
             else:
                 positions = list(itertools.product(*[range(s) for s in shape]))
                 k = g.randint(1, min(4, len(positions)))
                 chosen = g.sample(positions, k)
+                # the integer type the caller happens to hold the subscripts in
+                step["subs_dtype"] = g.choice(["int64", "int64", "int64", "int32", "uint8", "uint16", "uint32", "uint64", "int8", "int16"])
             rows = []
             many = g.random() < 0.25  # long inputs: dozens of rows over a few positions
             for p in chosen:
@@ -168,7 +182,10 @@ class EngineE:
                         vals[j] = 0.0
             step["subs"] = rows
             step["vals"] = vals
-            step["shape"] = shape if huge else g.choice([None, shape, [s + g.randint(0, 1) for s in shape]])
+            if narrow:
+                step["shape"] = g.choice([None, shape])
+            else:
+                step["shape"] = shape if huge else g.choice([None, shape, [s + g.randint(0, 1) for s in shape]])
             step["reducer"] = g.choice(["sum", "sum", "default", "min", "max", "mean", "np.max", "np.sum", "prod", "first", "last", "callable_first", "callable_last"])
         else:  # k_from_function
             step["shape"] = self._shape(g)
